@@ -169,8 +169,10 @@ class ShRunner:
         env = {"PATH": self.dir, "STUB_MODE": "argvcat", "LC_ALL": "C.UTF-8"}
         try:
             # the leading blank keeps a line that starts with `-` from being taken as an option of sh itself
+            # cwd is the private directory: when the quoting under test is broken, a stray `>` in the
+            # line becomes a redirection, and the file it creates must not land in /verif
             r = subprocess.run(["/bin/sh", "-c", " " + line], env=env, stdin=subprocess.DEVNULL,
-                               capture_output=True, timeout=20)
+                               capture_output=True, timeout=20, cwd=self.dir)
         except subprocess.TimeoutExpired:
             return 124, []
         out = []
